@@ -23,6 +23,16 @@ _TABLE0 = set(_decl.BuiltinImplementationSpecifications)
 assert not (_TABLE0 & set(BUILTINS)), "a pool type is already declared at import time"
 
 
+def falsy_body(kind):
+    """truth value of the objects must not matter: classes (through their metaclass) and instances
+    that are falsy by __bool__ or by __len__"""
+    if kind == "bool":
+        return {"__bool__": lambda self: False}
+    if kind == "len":
+        return {"__len__": lambda self: 0}
+    return {}
+
+
 class UnexpectedSpecification(Exception):
     pass
 
@@ -53,7 +63,8 @@ class World:
         # some interfaces; "call" says whether implementer(...) is applied at all
         self.metas = []
         for k, m in enumerate(case.get("metas", [])):
-            M = type("M%d" % k, tuple(self.metas[b] for b in m["bases"]) or (type,), {"__module__": "c01case"})
+            M = type("M%d" % k, tuple(self.metas[b] for b in m["bases"]) or (type,),
+                     dict({"__module__": "c01case"}, **falsy_body(m.get("falsy"))))
             if m.get("call", True):
                 implementer(*[self.ifaces[i] for i in m["l"]])(M)
             self.metas.append(M)
@@ -112,7 +123,7 @@ class World:
         if k == "NewClass":
             bases = tuple(self.classes[b] for b in op["bases"]) or (object,)
             name = "C%d" % len(self.classes)
-            body = {"__module__": "c01case"}
+            body = dict({"__module__": "c01case"}, **falsy_body(op.get("ifalsy")))
             if op.get("old") is not None:
                 # an old-style declaration in the class body: one interface, a tuple, nested
                 items = [I[i] for i in op["old"]]
@@ -185,6 +196,19 @@ class World:
         return {"inst": inst, "cls": cls}
 
 
+def query_super(w, sel):
+    """super(B, x) for x an instance or a class: implementedBy / providedBy / I.providedBy of the proxy"""
+    out = []
+    I = w.ifaces
+    for b, t, rest in sel:
+        x = w.target(t)
+        B = w.classes[b]
+        out.append([rest, w.mask(implementedBy(super(B, x)).flattened()),
+                    w.mask(providedBy(super(B, x)).flattened()),
+                    w.mask(i for i in I if i.providedBy(super(B, x)))])
+    return out
+
+
 def _ids(sel, everything):
     """True = all; a list = those (that still exist)"""
     if sel is True:
@@ -223,7 +247,13 @@ def run_case(case):
             except Exception as e:
                 exc, name = 9, "query:" + type(e).__name__
                 q = {"inst": [], "cls": []}
-        steps.append({"exc": exc, "excname": name, "q": q, "cp": cp})
+        sp = []
+        if op.get("qs") and exc != 9:
+            try:
+                sp = query_super(w, [x for x in op["qs"] if x[1][0] == "c" or x[1][1] in w.objs])
+            except Exception as e:
+                exc, name = 9, "query-super:" + type(e).__name__
+        steps.append({"exc": exc, "excname": name, "q": q, "cp": cp, "sp": sp})
     return {"steps": steps}
 
 
